@@ -58,6 +58,8 @@ var groups = []grp{
 	{"C", []string{"10.0.0.7/32", "2001:db8::1/128"}},
 	{"D", []string{"141.219.0.0/16", "35.8.0.0/16"}},
 	{"E", []string{"2001:db8:5::/120"}},
+	// IPv6 subnets with more than 64 host bits, and IPv4 / IPv6 prefixes that are not a multiple of 8
+	{"F", []string{"2001:48a8::/32", "2001:db8:40::/48", "10.1.16.0/20", "192.0.2.16/28", "2001:db8:0:f000::/52"}},
 }
 
 type cfg struct {
